@@ -60,6 +60,9 @@ def run(key, props_override, budget):
         try:
             rc, o = sh("git apply %spatch.diff" % d, cwd="/repo")
             if rc != 0:
+                # the patch was written against an earlier commit: fall back to a 3-way merge
+                rc, o = sh("git apply --3way %spatch.diff && git reset -q" % d, cwd="/repo")
+            if rc != 0:
                 print(mid, "PATCH DOES NOT APPLY", o[:200]); continue
             for p in props:
                 t0 = time.time()
